@@ -35,6 +35,10 @@ type Schema struct {
 	loadOnce    sync.ErrOnce
 	compileOnce sync.ErrOnce
 
+	// compiled is set by the first Check, Validate, Example, GetAST or Build:
+	// their result is kept, the types must be complete by then.
+	compiled bool
+
 	astNode                  jschema.ASTNode
 	areKeysOptionalByDefault bool
 }
@@ -109,6 +113,11 @@ func (s *Schema) AddType(name string, sc jschema.Schema) (err error) {
 	defer func() {
 		err = panics.Handle(recover(), err)
 	}()
+
+	// The same answer as AddRule gives: a type added now would be ignored.
+	if s.compiled {
+		return stdErrors.New("schema is already compiled")
+	}
 
 	if err := s.load(); err != nil {
 		return err
@@ -467,6 +476,7 @@ func (s *Schema) compile() error {
 		defer func() {
 			err = panics.Handle(recover(), err)
 		}()
+		s.compiled = true
 		if err := s.load(); err != nil {
 			return err
 		}
